@@ -125,6 +125,21 @@ def A3(inp, chunks):
     cl['entry_appended_exactly_once'] = len(flog) == 2 and bool(Blob.coerce(flog[1][0]).same(cmd)) and bool(Eq(flog[1][1], 2)) and bool(Eq(flog[1][2], term))
     cl['one_success_ack_at_the_end'] = len(ok_acks) == 1 and acks[-1] is ok_acks[0] and bool(Eq(ok_acks[0]['next_node_idx'], 3))
     cl['buffer_reset'] = not get(fol, 'recvTransmission')
+    # lifecycle: the node is deposed, its entry at that index is overwritten by another big entry, it is re-elected and sends again
+    n2 = inp.int('n2', 1, 8 * 70000 + 64)
+    inp.assume(And(n2 >= B, n2 + 64 <= chunks * B))
+    cmd2 = _command(2, n2)
+    so.set_log(lead, [(so.NOOP, 1, 0), (cmd2, 2, term + 1)])
+    put(lead, 'raftCurrentTerm', term + 2)
+    get(lead, 'raftNextIndex')[b] = 2
+    del ltr.sent[:]
+    _, exc3 = guard(getattr(lead, so.P + 'sendAppendEntries'))
+    msgs2 = [m for nd, m in ltr.sent if nd == b and m.get('transmission') is not None]
+    whole2 = Blob()
+    for m in msgs2:
+        whole2 = whole2 + m['data']
+    so2 = whole2.sole_origin()
+    cl['resend_carries_the_current_entry'] = exc3 is None and so2 is not None and so2[0] in ep.objs and ep.objs[so2[0]][0][0] is cmd2 and bool(Eq(ep.objs[so2[0]][0][2], term + 1))
     return Res(cl, nontrivial=True, obs=lambda: dict(tags=tags, sizes=[show(symlen(m['data'])) for m in msgs], exc=show(exc), exc2=show(exc2),
                                                      follower_log_len=len(flog)),
                vars=dict(n=n, B=B))
@@ -206,7 +221,7 @@ class Packed(SyncObj):
         return len(args)
 
 
-@obligation('A1', props=('C11', 'C02'), quick=[dict()], stubs=('_applyCommand replaced on the instance to capture the packed command', 'FakePickle keeps symbolic arguments symbolic'),
+@obligation('A1', props=('C11', 'C02', 'C15', 'C12'), quick=[dict()], stubs=('_applyCommand replaced on the instance to capture the packed command', 'FakePickle keeps symbolic arguments symbolic'),
             bounds='0..2 positional and 0..2 keyword arguments (symbolic ints), each of the control keywords callback/sync/timeout present or absent')
 def A1(inp):
     """argument packing: whatever mix of positional/keyword arguments and control keywords (callback, sync, timeout) a
